@@ -224,6 +224,7 @@ def run(an: Analysis, rep):
                 "present" if mname in enc[1] else f"the encoder has no case for operand class {mname}", nontrivial=False)
     rep.run(r025, an, rep)
     rep.run(r026, an, rep)
+    rep.run(r027, an, rep)
     from .common import SharedRules
     from . import c10
     from . import c13
@@ -620,3 +621,71 @@ def r026(an, rep):
                 f"`{a}` is set back to {inits[a]!r} after the yield and carried through EXTENDED_ARG prefixes" if ok and not ext_reset else
                 (f"`{a}` is reset on the EXTENDED_ARG path: prefixes are lost" if ext_reset else
                  f"`{a}` is not reset to {inits[a]!r} after an instruction is yielded: every later operand is combined with its predecessors"))
+
+
+def r027(an, rep):
+    """Every EXTENDED_ARG prefix contributes to the operand: what the prefix branch hands to the next code unit depends on what it was handed."""
+    rep.rule("R02.7", "the value carried across EXTENDED_ARG prefixes depends on the value carried in (no prefix is dropped)", 1)
+    pf = find_parser(an)
+    loop = next((n for n in pf.node.body if isinstance(n, ast.For)), None)
+    if loop is None:
+        raise AnalysisError(f"{pf.qual}: main loop not found")
+    branch = None
+    for i, st in enumerate(loop.body):
+        if isinstance(st, ast.If) and any(isinstance(n, ast.Attribute) and n.attr == "EXTENDED_ARG" for n in ast.walk(st.test)):
+            if isinstance(st.test, ast.Compare) and len(st.test.ops) == 1 and isinstance(st.test.ops[0], (ast.Eq, ast.NotEq, ast.Is, ast.IsNot)):
+                pre = st.body if isinstance(st.test.ops[0], (ast.Eq, ast.Is)) else st.orelse
+                other = st.orelse if pre is st.body else st.body
+                branch = (i, st, pre, other)
+    if branch is None:
+        raise AnalysisError(f"{pf.qual}: the test for the EXTENDED_ARG opcode not recognised")
+    bi, ifst, pre, other = branch
+
+    def stored(stmts):
+        return {n.id for st in stmts for n in ast.walk(st) if isinstance(n, ast.Name) and isinstance(n.ctx, ast.Store)}
+    carried = sorted(stored(pre) & stored(other))
+    if not carried:
+        raise AnalysisError(f"{pf.qual}: no variable is both updated on the prefix path and reset after an instruction")
+    dep = {v: {v} for v in carried}
+
+    def deps_of(e):
+        out = set()
+        for n in ast.walk(e):
+            if isinstance(n, ast.Name) and isinstance(n.ctx, ast.Load):
+                out |= dep.get(n.id, set())
+        return out
+
+    def flow(stmts):
+        for st in stmts:
+            if isinstance(st, (ast.Assign, ast.AnnAssign)) and st.value is not None:
+                ts = st.targets if isinstance(st, ast.Assign) else [st.target]
+                d = deps_of(st.value)
+                for t in ts:
+                    for n in ast.walk(t):
+                        if isinstance(n, ast.Name) and isinstance(n.ctx, ast.Store):
+                            dep[n.id] = set(d)
+            elif isinstance(st, ast.AugAssign) and isinstance(st.target, ast.Name):
+                dep[st.target.id] = dep.get(st.target.id, set()) | deps_of(st.value)
+            elif isinstance(st, ast.If):
+                before = {k: set(v) for k, v in dep.items()}
+                flow(st.body)
+                a = {k: set(v) for k, v in dep.items()}
+                dep.clear()
+                dep.update(before)
+                flow(st.orelse)
+                for k in set(a) | set(dep):
+                    dep[k] = a.get(k, set()) | dep.get(k, set())
+            elif isinstance(st, (ast.Expr, ast.Pass)):
+                continue
+            else:
+                raise AnalysisError(f"{pf.qual}: statement `{norm_src(st)[:60]}` on the prefix path not modelled")
+    flow(loop.body[:bi])
+    flow(pre)
+    for v in carried:
+        if v not in stored(pre):
+            continue
+        ok = bool(dep.get(v, set()) & set(carried))
+        rep.add("R02.7", f"{pf.qual}::{v} carried across prefixes", ok, loc(pf.module, ifst),
+                f"on the EXTENDED_ARG path the new `{v}` is computed from the carried {sorted(dep[v] & set(carried))}: every prefix shifts the earlier ones up" if ok else
+                f"on the EXTENDED_ARG path `{v}` is rebuilt from the current code unit alone, without the value carried from earlier prefixes: an instruction with two or "
+                f"more prefixes (operand >= 65536) keeps only the last one - e.g. name 65536 decodes as name 0")
